@@ -326,8 +326,12 @@ Relation(g, e, X) ==
                (IF \A i \in 1..N(e) : RWithin(WinVec(e)[i], WinVec(b)[i], ProbTol) THEN {} ELSE {GP(e, "win_depends_on_unit")})
              ELSE IF e.op = "draw" THEN
                (IF RWithin(e.out.value.v, b.out.value.v, ProbTol) THEN {} ELSE {GP(e, "draw_depends_on_unit")})
-             ELSE (IF \A i \in 1..N(e) : RWithin(RankProbVec(e)[i], RankProbVec(b)[i], ProbTol)
-                                         /\ e.out.value.items[i].items[1].v = b.out.value.items[i].items[1].v
+             \* the probabilities agree within the tolerance; the ranks - a discontinuous function of them - agree in ORDER for every
+             \* pair of teams the base separates by more than the tolerance can move them (two teams one ulp apart may tie in one
+             \* unit and not in the other: found by the thorough tier, 12.11)
+             ELSE (IF /\ \A i \in 1..N(e) : RWithin(RankProbVec(e)[i], RankProbVec(b)[i], ProbTol)
+                      /\ \A i, j \in 1..N(e) : RLt(RankProbVec(b)[j] ++ R2(ProbTol), RankProbVec(b)[i])
+                                                  => RToInt(e.out.value.items[i].items[1].v) < RToInt(e.out.value.items[j].items[1].v)
                    THEN {} ELSE {GP(e, "rank_depends_on_unit")})
 
     \* origin of the scale: a constant added to every mu (equal team sizes)       [C16]
@@ -354,7 +358,10 @@ Relation(g, e, X) ==
                (IF \A i \in 1..N(e) : RWithin(WinVec(e)[i], WinVec(b)[i], ProbTol) THEN {} ELSE {GP(e, "win_depends_on_origin")})
              ELSE IF e.op = "draw" THEN
                (IF RWithin(e.out.value.v, b.out.value.v, ProbTol) THEN {} ELSE {GP(e, "draw_depends_on_origin")})
-             ELSE (IF \A i \in 1..N(e) : RWithin(RankProbVec(e)[i], RankProbVec(b)[i], ProbTol) THEN {} ELSE {GP(e, "rank_depends_on_origin")})
+             ELSE (IF /\ \A i \in 1..N(e) : RWithin(RankProbVec(e)[i], RankProbVec(b)[i], ProbTol)
+                      /\ \A i, j \in 1..N(e) : RLt(RankProbVec(b)[j] ++ R2(ProbTol), RankProbVec(b)[i])
+                                                  => RToInt(e.out.value.items[i].items[1].v) < RToInt(e.out.value.items[j].items[1].v)
+                   THEN {} ELSE {GP(e, "rank_depends_on_origin")})
 
     \* the same call on another of the five model classes                         [C19]
     [] role = "model" ->
